@@ -412,10 +412,25 @@ def prep_fallback_scenario(rng, sid):
     and then - by an explicit schedule prefix - either the fallback's load sees the free word and another thread takes
     S / SIX / X before its CAS, or another thread is granted S / SIX first so that the fallback's load sees other
     holders only.  These are the exits of the fallback: own S grant, version of a word with shared holders, retry."""
-    g = LockGen('opt', rng, nlocks=1)
+    nlocks = 2 if rng.random() < 0.3 else 1
+    g = LockGen('opt', rng, nlocks=nlocks)
     c = g.var(0, 'Comp')
-    a_ops = rng.choice([[f'prep {c} 0', f'bool {c}', f'cverify {c}', f'gver {c}', f'cverify {c}', f'dtor {c}'],
-                        [f'prep {c} 0', f'bool {c}', f'dtor {c}']])
+    c2 = g.var(0, 'Comp', 1)
+    tails = [[f'bool {c}', f'cverify {c}', f'gver {c}', f'cverify {c}', f'dtor {c}'],
+             [f'bool {c}', f'dtor {c}'],
+             # the (possibly owning) composite guard is move-constructed / move-assigned before it dies: the grant must be
+             # released exactly once, through the guard that owns it now
+             [f'mctor {c2} {c}', f'bool {c}', f'bool {c2}', f'cverify {c2}', f'dtor {c2}', f'dtor {c}'],
+             [f'massign {c2} {c}', f'bool {c}', f'bool {c2}', f'dtor {c}', f'cverify {c2}', f'dtor {c2}'],
+             [f'mctor {c2} {c}', f'dtor {c}', f'bool {c2}', f'dtor {c2}']]
+    if nlocks == 2:
+        # a guard of ANOTHER lock is move-assigned over the (possibly owning) guard: the old grant is released on its own lock
+        tails += [[f'prep {c2} 1', f'massign {c} {c2}', f'bool {c}', f'bool {c2}', f'cverify {c}', f'dtor {c}', f'dtor {c2}'],
+                  [f'prep {c2} 1', f'bool {c2}', f'massign {c2} {c}', f'bool {c2}', f'dtor {c2}', f'dtor {c}']] * 2
+    a_ops = [f'prep {c} 0'] + rng.choice(tails)
+    # reads inside the section the guard protects, then the validation: with a genuine shared grant nothing can be
+    # committed in between, with an optimistic guard the validation must notice what was
+    a_reader = [f'prep {c} 0', f'bool {c}', 'payrd 0', 'payrd 0', f'cverify {c}', 'payrd 0', f'cverify {c}', f'dtor {c}']
     sb, ib, xb = g.var(1, 'S'), g.var(1, 'SIX'), g.var(1, 'X')
     xw = g.var(2, 'X')
     hold = rng.choice([6, 8, 10])
@@ -427,8 +442,12 @@ def prep_fallback_scenario(rng, sid):
         w_ops += [f'dng {iw} {xw}', 'payrd 0', 'payrd 0', f'dtor {iw}']
     # the writer comes back for a second exclusive section while B may still be inside its section
     w_ops += [f'lock X {xw} 0', f'paywr 0 {g.nextval()}', f'paywr 0 {g.nextval()}', f'dtor {xw}']
-    first = rng.choice(['S', 'S', 'S', 'SIX', 'X'])
-    if first == 'S':
+    first = rng.choice(['S', 'S', 'S', 'SIX', 'X', 'Xc', 'Xc'])
+    if first == 'Xc':
+        # B commits a whole exclusive section between the fallback's load and its CAS: the CAS fails on a word that is
+        # completely free again but carries another version
+        b_ops = [f'lock X {xb} 0', f'paywr 0 {g.nextval()}', f'dtor {xb}', 'payrd 0']
+    elif first == 'S':
         b_ops = [f'lock S {sb} 0'] + ['payrd 0'] * rng.choice([3, 8, 12]) + [f'dtor {sb}']
     elif first == 'SIX':
         b_ops = [f'lock SIX {ib} 0', 'payrd 0', 'payrd 0', f'dtor {ib}']
@@ -439,7 +458,16 @@ def prep_fallback_scenario(rng, sid):
     sched = [2] * 3
     sched += [0] * (11 + rng.randrange(0, 4))
     sched += [2] * (2 * hold + 2)
-    if rng.random() < 0.5:
+    if first == 'Xc':
+        sched = [1] + sched                      # B's start quantum first, so that its section fits the window exactly
+        sched += [0] * 1                         # the fallback's load sees the free word; its CAS is next
+        sched += [1] * rng.choice([5, 5, 6])     # load, CAS, two payload stores, release (+ one more)
+        sched += [0] * rng.choice([1, 2, 4])     # the CAS fails on a free word of the next version
+        if rng.random() < 0.7:
+            a_ops = a_reader
+            sched += [2] * rng.choice([6, 7, 8])  # the writer's second exclusive section, while A is reading
+            sched += [0] * 6
+    elif rng.random() < 0.5:
         sched += [0] * 1                         # the fallback's load; its CAS is next
         sched += [1] * rng.choice([2, 2, 3])     # B is granted in between
         sched += [0] * rng.choice([1, 2, 3, 4])
@@ -450,7 +478,7 @@ def prep_fallback_scenario(rng, sid):
     px = g.var(pt, 'X')
     progs = [a_ops, b_ops, w_ops, [f'lock X {px} 0', f'paywr 0 {g.nextval()}', f'dtor {px}']]
     kinds = ','.join(g.block * 4)
-    lines = [f'SCEN {sid} comp=opt nlocks=1 kinds={kinds} policy={rng.choice([0, 1, 2])} seed={rng.randrange(1, 1 << 30)} '
+    lines = [f'SCEN {sid} comp=opt nlocks={nlocks} kinds={kinds} policy={rng.choice([0, 1, 2])} seed={rng.randrange(1, 1 << 30)} '
              f'max_steps=3000 late={pt}']
     lines += ['T ' + ';'.join(p) for p in progs]
     lines.append('S ' + ' '.join(map(str, sched)))
@@ -475,7 +503,7 @@ def make_scenarios(comp, seed, count, prefix):
         if comp == 'opt' and r0 < 0.54:
             out.append(reader_writers_scenario(rng, f'{prefix}{i}'))
             continue
-        if comp == 'opt' and r0 < 0.59:
+        if comp == 'opt' and r0 < 0.63:
             out.append(prep_fallback_scenario(rng, f'{prefix}{i}'))
             continue
         nlocks = 2 if rng.random() < 0.35 else 1
